@@ -60,8 +60,15 @@ func (t DataType) Bytes(endian binary.ByteOrder, value interface{}, length int64
 		t := asetime.DurationFromDateTime(value.(time.Time))
 		t -= asetime.DurationFromDateTime(asetime.Epoch1900())
 
+		days := t.Days()
+		// Days truncates towards zero - a point in time before 1900 with
+		// a time part belongs to the preceding day.
+		if t.Microseconds()-days*int(asetime.Day) < 0 {
+			days--
+		}
+
 		bs := make([]byte, length)
-		endian.PutUint32(bs, uint32(t.Days()))
+		endian.PutUint32(bs, uint32(days))
 		return bs, nil
 	case TIME, TIMEN:
 		dur := asetime.DurationFromTime(value.(time.Time))
@@ -75,6 +82,11 @@ func (t DataType) Bytes(endian binary.ByteOrder, value interface{}, length int64
 		t -= asetime.DurationFromDateTime(asetime.Epoch1900())
 
 		days := t.Days()
+		// Days truncates towards zero - a point in time before 1900 with
+		// a time part belongs to the preceding day.
+		if t.Microseconds()-days*int(asetime.Day) < 0 {
+			days--
+		}
 
 		bs := make([]byte, length)
 		switch length {
